@@ -163,7 +163,8 @@ def match_known(known, failure):
             continue
         if k.get("subcheck") != failure["subcheck"]:
             continue
-        if k.get("site") != failure["site"]:
+        sites = k.get("sites") or [k.get("site")]
+        if failure["site"] not in sites:
             continue
         if not _where_ok(k.get("where"), failure.get("features", {})):
             continue
@@ -623,7 +624,8 @@ def main(argv=None):
     for k in known:
         if k.get("status") == "known":
             n = merged["known_excluded"].get(k["id"], 0)
-            print(f"KNOWN-FINDING: property={prop} {k['id']} {k['subcheck']} @ {k['site']}: {k['what']} (observed {n}x in this run)")
+            site = k.get("site") or ",".join(k.get("sites", []))
+            print(f"KNOWN-FINDING: property={prop} {k['id']} {k['subcheck']} @ {site}: {k['what']} (observed {n}x in this run)")
     nt = len(merged["nontrivial"])
     print(
         f"{prop} tier={tier} seed={seed}: {merged['evaluations']} cases, {nt} distinct non-trivial, "
